@@ -5,3 +5,27 @@ open Common
 let () =
   reg "utf8spec" (function [h] -> b2s (wf_utf8 (bytes_arg h)) | _ -> "badargs");
   reg "utf8enc" (function l -> hex_of_bytes (utf8_encode (List.map z_of_string l)))
+
+let frame_str (f : wframe) =
+  let h = f.wh in
+  Printf.sprintf "%s:%s%s%s:%s:%s:%s" (string_of_z h.h_fin) (string_of_z h.h_rsv1) (string_of_z h.h_rsv2)
+    (string_of_z h.h_rsv3) (string_of_z h.h_opcode)
+    (match f.wkey with Some k -> hex_of_bytes k | None -> "none") (digest_of_bytes f.wpayload)
+
+let () =
+  (* decode <hex>  ->  F:<fin>:<rsv>:<op>:<key>:<payload>:<restlen> | N:... | I *)
+  reg "decode" (function [h] ->
+      (match decode_fast (bytes_arg h) with
+       | Frame (f, rest) -> "F:" ^ frame_str f ^ ":" ^ string_of_int (List.length rest)
+       | NotShortest (f, rest) -> "N:" ^ frame_str f ^ ":" ^ string_of_int (List.length rest)
+       | Incomplete -> "I") | _ -> "badargs");
+  (* specencode <fin> <rsv1> <rsv2> <rsv3> <op> <key|none> <payload> -> digest of the canonical encoding *)
+  reg "specencode" (function [fin; r1; r2; r3; op; key; p] ->
+      let f = { wh = { h_fin = z_of_string fin; h_rsv1 = z_of_string r1; h_rsv2 = z_of_string r2;
+                       h_rsv3 = z_of_string r3; h_opcode = z_of_string op };
+                wkey = (if key = "none" then None else Some (bytes_arg key)); wpayload = bytes_arg p } in
+      digest_of_bytes (encode_fast f) | _ -> "badargs");
+  reg "decodeall" (function [h] ->
+      let s = bytes_arg h in
+      let (fs, tl) = decode_all_fast (nat_of_int (List.length s + 1)) s in
+      String.concat "|" (List.map frame_str fs) ^ "|rest=" ^ string_of_int (List.length tl) | _ -> "badargs")
